@@ -409,11 +409,19 @@ func (m *Muxer) sender() {
 		}
 	}
 
-	// if we broke out of the loop, consume all packets so tubes can still close
+	// if we broke out of the loop, consume all packets so tubes can still close.
+	// Both queues are drained at the same time: a tube blocked handing a frame to
+	// one of them holds its lock, and Stop cannot close either queue before every
+	// tube has closed.
+	priorityDrained := make(chan struct{})
+	go func() {
+		for range m.prioritySendQueue {
+		}
+		close(priorityDrained)
+	}()
 	for range m.sendQueue {
 	}
-	for range m.prioritySendQueue {
-	}
+	<-priorityDrained
 
 	m.log.WithField("error", err).Debug("muxer sender stopped")
 	m.senderErr <- err
